@@ -171,7 +171,11 @@ func c13Worker(args []string) int {
 	res := make([]string, len(cases))
 	var wg sync.WaitGroup
 	ch := make(chan int, len(cases))
+	stride, _ := strconv.Atoi(os.Getenv("VERIF_C13_STRIDE")) // the js/wasm child (one thread, interpreted by node) takes every stride-th case
 	for i := range cases {
+		if stride > 1 && (i%stride != 0 || cases[i].W*cases[i].H > 40000) {
+			continue
+		}
 		ch <- i
 	}
 	close(ch)
@@ -187,7 +191,14 @@ func c13Worker(args []string) int {
 	wg.Wait()
 	enc := json.NewEncoder(os.Stdout)
 	for i, d := range res {
+		if d == "" && stride > 1 {
+			continue
+		}
 		enc.Encode(map[string]any{"i": i, "d": d})
+	}
+	if stride > 1 { // no kernel exerciser in the js/wasm child: it belongs to the overlay builds
+		enc.Encode(map[string]any{"done": true, "goarch": runtime.GOARCH})
+		return 0
 	}
 	// kernel level: every arch-specific kernel driven directly with corner and random vectors
 	var klines []string
@@ -208,7 +219,7 @@ var c13QuickTargets = []string{"linux/386", "linux/arm", "linux/arm64", "linux/r
 func runC13(c *ev.Ctx) {
 	c.Rule = "(a) one case list (Encode over legal options x image classes incl. 2047..4097-pixel-wide pictures, Decode of synthesized VP8 / VP8L / ALPH streams) executed by three builds of the same " +
 		"working tree: amd64 assembly with AVX2, the same with AVX2 disabled (SSE2 paths), and a portable build made with a go build overlay that deletes every *_amd64 file and activates the " +
-		"!amd64 pure-Go files; digests of encoded bytes and decoded pixels must be identical (a panic in one build is a difference); (b) go build ./... of the module for GOOS/GOARCH targets " +
+		"!amd64 pure-Go files - plus, for every second (thorough: eighth) case, the module built for js/wasm and executed by node (the toolchain's own choice of portable files); digests of encoded bytes and decoded pixels must be identical (a panic in one build is a difference); (b) go build ./... of the module for GOOS/GOARCH targets " +
 		"(quick: 14 representative targets incl. all 32-bit families; thorough: every pair of `go tool dist list`); distinct = (kind, class, alpha, size bucket) cases + targets built"
 	c.Assume("arm64 assembly cannot be executed in this sandbox (no emulator): it is compile-checked only; 32-bit binaries cannot run here either")
 	c.Assume("clause (b) is decided by observing the compiler, the only observation that can decide it")
@@ -224,8 +235,23 @@ func runC13(c *ev.Ctx) {
 	type variant struct {
 		name, exe string
 		env       []string
+		pre       []string // arguments in front of "worker C13 .."
+		nokern    bool     // prints no kernel-level lines
 	}
-	vars := []variant{{"portable", port, nil}, {"avx2", ovl, nil}, {"sse2", ovl, []string{"VERIF_NOAVX2=1"}}}
+	vars := []variant{{name: "portable", exe: port}, {name: "avx2", exe: ovl}, {name: "sse2", exe: ovl, env: []string{"VERIF_NOAVX2=1"}}}
+	// fourth build: the module compiled for GOOS=js GOARCH=wasm - the real portable configuration (every !amd64 && !arm64
+	// file selected by the toolchain itself, no overlay involved), executed by node on another instruction set. One
+	// thread, so it takes every second (thorough: eighth) case of the list and none above 40000 pixels.
+	if wexe, wrun := os.Getenv("VERIF_EXE_WASM"), os.Getenv("VERIF_WASM_EXEC"); wexe != "" && wrun != "" {
+		if node, err := exec.LookPath("node"); err == nil {
+			vars = append(vars, variant{name: "wasm", exe: node, pre: []string{wrun, wexe}, nokern: true,
+				env: []string{"VERIF_C13_STRIDE=" + strconv.Itoa(c.N(2, 8))}})
+		} else {
+			c.Inconclusive("node-not-found:js/wasm-build-not-executed")
+		}
+	} else {
+		c.Inconclusive("js/wasm-build-missing:not-executed")
+	}
 	res := make([]map[int]string, len(vars))
 	kern := make([]map[string]string, len(vars))
 	var wg sync.WaitGroup
@@ -233,7 +259,7 @@ func runC13(c *ev.Ctx) {
 		wg.Add(1)
 		go func(k int, v variant) {
 			defer wg.Done()
-			cmd := exec.Command(v.exe, "worker", "C13", seed, c.Tier)
+			cmd := exec.Command(v.exe, append(append([]string{}, v.pre...), "worker", "C13", seed, c.Tier)...)
 			cmd.Env = append(os.Environ(), v.env...)
 			var se bytes.Buffer
 			cmd.Stderr = &se
@@ -296,7 +322,17 @@ func runC13(c *ev.Ctx) {
 			}
 		}
 		if i%150 == 0 {
-			c.Sample(map[string]any{"case": cs.Desc, "digest_portable": ref, "digest_avx2": res[1][i], "digest_sse2": res[2][i]})
+			smp := map[string]any{"case": cs.Desc, "digest_portable": ref, "digest_avx2": res[1][i], "digest_sse2": res[2][i]}
+			if len(vars) > 3 {
+				smp["digest_wasm"] = res[3][i]
+			}
+			c.Sample(smp)
+		}
+	}
+	if len(vars) > 3 {
+		c.Extra("cases_executed_by_the_js_wasm_build", len(res[3]))
+		if len(res[3]) < 100 {
+			c.Fatal("the js/wasm build returned %d case digests: observed nothing", len(res[3]))
 		}
 	}
 	// kernel-level digests
@@ -308,6 +344,9 @@ func runC13(c *ev.Ctx) {
 		nk++
 		c.Distinct("kernel|" + name)
 		for k := 1; k < len(vars); k++ {
+			if vars[k].nokern {
+				continue
+			}
 			d, ok := kern[k][name]
 			c.Eval(1)
 			if !ok || d != ref {
